@@ -303,7 +303,8 @@ type AuthzOpts struct {
 	GrantScopes func(requested []string) []string // nil => all requested
 	GrantAud    func(requested []string) []string // nil => all requested
 	Session     *Sess
-	Deny        bool // resource owner denies: integrator writes access_denied
+	Deny        bool                 // resource owner denies: integrator writes access_denied
+	Prep        func(fosite.Session) // applied to the session just before NewAuthorizeResponse
 }
 
 func (w *World) Authorize(params url.Values, opt AuthzOpts) *Obs {
@@ -358,6 +359,9 @@ func (w *World) authorizeReq(req *http.Request, opt AuthzOpts) *Obs {
 			os.IDTokenClaims().AuthTime = w.now.Truncate(1e9)
 			os.IDTokenClaims().RequestedAt = w.now.Truncate(1e9)
 		}
+	}
+	if opt.Prep != nil {
+		opt.Prep(sess)
 	}
 	resp, err := w.Prov.NewAuthorizeResponse(ctx, ar, sess)
 	if err != nil {
